@@ -81,6 +81,7 @@ type Sched struct {
 	rngs    sync.Map
 	Stale   int32 // writers that published on a catalog that was not their base
 	off     int32
+	Ctrl    *Controller // when set, actors stop at the scheduling points and the controller picks who continues
 }
 
 // NewSched creates a scheduler.
@@ -210,6 +211,12 @@ func (s *Sched) hook(point string, e *lungo.Engine, txn *lungo.Transaction) {
 		}
 	}
 	s.mu.Unlock()
+	if s.Ctrl != nil {
+		if unlocked[point] && point != "close.done" {
+			s.Ctrl.Park(point)
+		}
+		return
+	}
 	if gate != nil {
 		select {
 		case <-gate.release:
@@ -335,6 +342,9 @@ type Worker struct {
 
 // Do performs one call under the hooks and keeps its record (written to the trace afterwards).
 func (w *Worker) Do(c dbt.Call) {
+	if w.Sched.Ctrl != nil {
+		w.Sched.Ctrl.Park("call")
+	}
 	w.Sched.StartCall()
 	invoke := time.Now()
 	res := w.Env.RunOnly(c)
@@ -347,6 +357,9 @@ func (w *Worker) Do(c dbt.Call) {
 // DoTxn runs the calls inside one session transaction (WithTransaction); with abort the
 // callback returns an error after the calls, so nothing may become visible.
 func (w *Worker) DoTxn(calls []dbt.Call, abort bool) {
+	if w.Sched.Ctrl != nil {
+		w.Sched.Ctrl.Park("call")
+	}
 	w.Sched.StartCall()
 	var results []V
 	committed := false
@@ -356,6 +369,9 @@ func (w *Worker) DoTxn(calls []dbt.Call, abort bool) {
 			w.Env.Ctx = sc2
 			defer func() { w.Env.Ctx = plain }()
 			for _, c := range calls {
+				if w.Sched.Ctrl != nil {
+					w.Sched.Ctrl.Park("txn-call")
+				}
 				results = append(results, w.Env.RunOnly(c))
 			}
 			if abort {
@@ -379,3 +395,175 @@ type abortErr struct{}
 func (abortErr) Error() string { return "callback asks for abort" }
 
 var errAbort = abortErr{}
+
+// ---------------------------------------------------------------------------
+// Controlled scheduling: the actors of a small scenario stop at every scheduling point (the start of a call and
+// the hook points that are reached without the engine mutex: begin.wait, begin.woke, session.*) and a controller
+// decides who continues.  A schedule is the list of its choices; DFS over the choices enumerates the
+// interleavings of the scenario at these points.  An actor that does not reach its next point within a short
+// time after being resumed is waiting inside the engine (for the writer slot or a mutex): the controller then
+// lets another parked actor run, which is exactly what would happen without it.
+
+type actor struct {
+	id     int
+	parked bool
+	done   bool
+	point  string
+	resume chan struct{}
+}
+
+// Controller serialises the actors of one run.
+type Controller struct {
+	mu     sync.Mutex
+	actors map[int64]*actor
+	order  []*actor
+	wake   chan struct{}
+	Used   []int    // the choice taken at every step
+	Alts   []int    // the number of parked actors it was taken from
+	Points []string // the point the chosen actor was resumed from
+	Stuck  bool     // some actors neither parked nor finished for the deadlock timeout
+	Rand   *rand.Rand // when set, choices beyond the prefix are drawn from it instead of being 0
+}
+
+// NewController creates a controller.
+func NewController() *Controller {
+	return &Controller{actors: map[int64]*actor{}, wake: make(chan struct{}, 64)}
+}
+
+// Register makes the calling goroutine actor number id; it parks at once.
+func (c *Controller) Register(id int) {
+	a := &actor{id: id, resume: make(chan struct{}, 1)}
+	c.mu.Lock()
+	c.actors[goid()] = a
+	c.order = append(c.order, a)
+	c.mu.Unlock()
+	c.Park("start")
+}
+
+// Park blocks the calling actor until the controller resumes it.
+func (c *Controller) Park(point string) {
+	c.mu.Lock()
+	a := c.actors[goid()]
+	if a == nil {
+		c.mu.Unlock()
+		return
+	}
+	a.parked, a.point = true, point
+	c.mu.Unlock()
+	select {
+	case c.wake <- struct{}{}:
+	default:
+	}
+	<-a.resume
+}
+
+// Finish marks the calling actor as done.
+func (c *Controller) Finish() {
+	c.mu.Lock()
+	if a := c.actors[goid()]; a != nil {
+		a.done = true
+	}
+	c.mu.Unlock()
+	select {
+	case c.wake <- struct{}{}:
+	default:
+	}
+}
+
+// Run drives n registered actors: choices beyond the prefix are 0 (the parked actor with the lowest number).
+func (c *Controller) Run(n int, prefix []int, settle, deadlock time.Duration) {
+	// wait for all actors to register
+	for {
+		c.mu.Lock()
+		k := len(c.order)
+		c.mu.Unlock()
+		if k >= n {
+			break
+		}
+		time.Sleep(100 * time.Microsecond)
+	}
+	idle := time.Duration(0)
+	for step := 0; ; {
+		// settle: all live actors parked, or nothing moved for a while
+		timer := time.NewTimer(settle)
+	wait:
+		for {
+			c.mu.Lock()
+			all := true
+			for _, a := range c.order {
+				if !a.done && !a.parked {
+					all = false
+				}
+			}
+			c.mu.Unlock()
+			if all {
+				break
+			}
+			select {
+			case <-c.wake:
+			case <-timer.C:
+				break wait
+			}
+		}
+		timer.Stop()
+		c.mu.Lock()
+		var parked []*actor
+		alive := 0
+		for _, a := range c.order {
+			if !a.done {
+				alive++
+				if a.parked {
+					parked = append(parked, a)
+				}
+			}
+		}
+		c.mu.Unlock()
+		if alive == 0 {
+			return
+		}
+		if len(parked) == 0 {
+			idle += settle
+			if idle > deadlock {
+				c.Stuck = true
+				return
+			}
+			continue
+		}
+		idle = 0
+		idx := 0
+		if step < len(prefix) && prefix[step] < len(parked) {
+			idx = prefix[step]
+		} else if step >= len(prefix) && c.Rand != nil {
+			idx = c.Rand.Intn(len(parked))
+		}
+		c.Used, c.Alts, c.Points = append(c.Used, idx), append(c.Alts, len(parked)), append(c.Points, parked[idx].point)
+		step++
+		c.mu.Lock()
+		parked[idx].parked = false
+		c.mu.Unlock()
+		parked[idx].resume <- struct{}{}
+	}
+}
+
+// ReleaseAll lets every parked actor go (after a stuck run).
+func (c *Controller) ReleaseAll() {
+	c.mu.Lock()
+	for _, a := range c.order {
+		select {
+		case a.resume <- struct{}{}:
+		default:
+		}
+	}
+	c.actors = map[int64]*actor{}
+	c.mu.Unlock()
+}
+
+// Next returns the schedule after (used, alts) in depth-first order, or nil when the tree is exhausted.
+func Next(used, alts []int) []int {
+	for i := len(used) - 1; i >= 0; i-- {
+		if used[i]+1 < alts[i] {
+			return append(append([]int{}, used[:i]...), used[i]+1)
+		}
+	}
+	return nil
+}
